@@ -669,6 +669,10 @@ impl Check for C18 {
                         let name = quoted[quoted.len() - 2];
                         if let Some((l, col)) = cited[..end].split_once(':') {
                             if let (Ok(l), Ok(col)) = (l.parse::<u32>(), col.parse::<u32>()) {
+                                if (l, col) == (0, 0) {
+                                    // what the interpreter itself declares (`print`) has no place in the script
+                                    return Verdict::Pass;
+                                }
                                 let ok = crate::layout::pos_to_off(&c.src, (l, col)).map(|off| c.src[off..].starts_with(name)).unwrap_or(false);
                                 let before = got.first().map(|g| (l, col) < *g).unwrap_or(true);
                                 if !ok || !before {
